@@ -432,6 +432,7 @@ pub struct Report {
   pub notes: Vec<String>,
 }
 pub struct Violation {
+  pub class: String,
   pub what: String,
   pub case_line: String,
   pub impl_obs: String,
@@ -454,8 +455,16 @@ impl Report {
     }
   }
   pub fn violation(&mut self, what: &str, case_line: &str, impl_obs: &str, model_obs: &str, contradicts: &str) {
-    if self.violations.len() < 20 {
+    self.violation_c(what, case_line, impl_obs, model_obs, contradicts, "");
+  }
+  /// violation with a classification string (matched against known_findings.json by bin/check);
+  /// at most 20 are kept per class so that a new class is never hidden by a frequent one
+  pub fn violation_c(&mut self, what: &str, case_line: &str, impl_obs: &str, model_obs: &str, contradicts: &str, class: &str) {
+    let n = self.violations.iter().filter(|v| v.class == class).count();
+    *self.dist.entry(format!("violation-class:{}", if class.is_empty() { "(unclassified)" } else { class })).or_insert(0) += 1;
+    if n < 20 {
       self.violations.push(Violation {
+        class: class.to_string(),
         what: what.to_string(),
         case_line: case_line.to_string(),
         impl_obs: impl_obs.to_string(),
@@ -479,7 +488,7 @@ impl Report {
       "notes": self.notes,
       "known_findings_hit": self.known_hits.iter().map(|(k, v)| serde_json::json!({"id": k, "count": v.0, "what": v.1})).collect::<Vec<_>>(),
       "violations": self.violations.iter().map(|v| serde_json::json!({
-        "what": v.what, "case_line": v.case_line, "impl_obs": v.impl_obs, "model_obs": v.model_obs, "contradicts": v.contradicts
+        "class": v.class, "what": v.what, "case_line": v.case_line, "impl_obs": v.impl_obs, "model_obs": v.model_obs, "contradicts": v.contradicts
       })).collect::<Vec<_>>(),
     })
   }
